@@ -993,6 +993,9 @@ def rule_r13(ctx) -> List[R.Inst]:
         copies is not then REPEATED (`[copy(x) for x in one] * n` holds the same n-times-referenced objects again)"""
         multiplied = {id(x) for m in ast.walk(e) if isinstance(m, ast.BinOp) and isinstance(m.op, ast.Mult) for x in (m.left, m.right)}
         for n in ast.walk(e):
+            if isinstance(n, (ast.ListComp, ast.GeneratorExp)) and any(isinstance(g.iter, ast.Subscript) and isinstance(g.iter.slice, ast.Slice) and
+                                                                       (g.iter.slice.lower is not None or g.iter.slice.upper is not None) for g in n.generators):
+                continue      # copies of a PART of the rows ([copy(v) for v in column[1:]]): the rest get no copy (or no value at all)
             if isinstance(n, (ast.ListComp, ast.GeneratorExp)) and id(n) not in multiplied and any(
                     isinstance(x, ast.Call) and call_name(x) in ("deepcopy", "copy", "list", "dict") for x in ast.walk(n.elt)):
                 return True
